@@ -176,13 +176,20 @@ func (r *RandomChoiceSelection) Select(pool UpstreamPool, _ *layer4.Connection) 
 	if k > len(pool) {
 		k = len(pool)
 	}
-	choices := make([]*Upstream, k)
-	for i, upstream := range pool {
+	// reservoir sampling over the available upstreams only, so that no slot is
+	// left empty (or never filled) because of the unavailable ones
+	choices := make([]*Upstream, 0, k)
+	var seen int
+	for _, upstream := range pool {
 		if !upstream.available() {
 			continue
 		}
-		j := weakrand.Intn(i + 1)
-		if j < k {
+		seen++
+		if len(choices) < k {
+			choices = append(choices, upstream)
+			continue
+		}
+		if j := weakrand.Intn(seen); j < k {
 			choices[j] = upstream
 		}
 	}
@@ -421,14 +428,20 @@ func leastConns(upstreams []*Upstream) *Upstream {
 		return nil
 	}
 	var best []*Upstream
-	var bestReqs int
+	bestReqs := -1
 	for _, upstream := range upstreams {
+		if upstream == nil {
+			continue
+		}
 		reqs := upstream.totalConns()
 		if reqs == 0 {
 			return upstream
 		}
-		if reqs <= bestReqs {
+		if bestReqs == -1 || reqs < bestReqs {
 			bestReqs = reqs
+			best = best[:0]
+		}
+		if reqs == bestReqs {
 			best = append(best, upstream)
 		}
 	}
